@@ -18,23 +18,24 @@ func c18Svz(r *Run, v1, v2 string, z1, z2 int) {
 	f := xl.NewFile()
 	defer f.Close()
 	line := fmt.Sprintf("svz %s %s %d %d", hx(v1), hx(v2), z1, z2)
-	res := "ok"
-	for _, s := range []struct {
+	res := ""
+	for i, s := range []struct {
 		v string
 		z int
 	}{{v1, z1}, {v2, z2}} {
 		v, z := s.v, float64(s.z)
 		if err := f.SetSheetView(c18Sheet, -1, &xl.ViewOptions{View: &v, ZoomScale: &z}); err != nil {
-			res = "ERR"
+			res += fmt.Sprintf("ERR ")
+			_ = i
+		} else {
+			res += "ok "
 		}
 	}
-	if res == "ok" {
-		g, err := f.GetSheetView(c18Sheet, -1)
-		if err != nil || g.View == nil || g.ZoomScale == nil {
-			res = "ERR"
-		} else {
-			res = "ok " + hx(*g.View) + " " + strconv.FormatFloat(*g.ZoomScale, 'f', -1, 64)
-		}
+	g, err := f.GetSheetView(c18Sheet, -1)
+	if err != nil || g.View == nil || g.ZoomScale == nil {
+		res += "ERR"
+	} else {
+		res += hx(*g.View) + " " + strconv.FormatFloat(*g.ZoomScale, 'f', -1, 64)
 	}
 	r.Op(line, res)
 	r.Case(line, true)
